@@ -252,7 +252,15 @@ class World:
         if t == "NE":
             if op[1] not in LINK_KINDS:
                 raise CaseInvalid("bad link class")
-            return ("id", KIND_CLS[op[1]](g(op[2]), g(op[3])))
+            a_, b_ = g(op[2]), g(op[3])
+            # positional, keyword, and "only the ends that are given" calls are the same construction
+            m_ = len(self.objs) % 3
+            if m_ == 1:
+                return ("id", KIND_CLS[op[1]](v1=a_, v2=b_))
+            if m_ == 2:
+                kw = {k: v for k, v in (("v1", a_), ("v2", b_)) if v is not None}
+                return ("id", KIND_CLS[op[1]](**kw))
+            return ("id", KIND_CLS[op[1]](a_, b_))
         if t in ("SV1", "SV2"):
             l, v = g(op[1], L), g(op[2], V)
             if t == "SV1":
